@@ -71,6 +71,8 @@ func checkC16(c *Ctx) {
 	c.Expect("C16-R5", 20)
 	c.Rule("C16-R6", "CSS and GetColor agree on the textual form: '#' plus six zero-padded hexadecimal digits of Hex() out; length 7, leading '#', the rest parsed base 16 (unsigned, at least 24 bits) and handed to NewHexColor unchanged in; no CSS form for invalid colours")
 	c.Expect("C16-R6", 3)
+	c.Rule("C16-R7", "FindColor measures with go-colorful's DistanceCIE76 on colours whose components are the 8-bit values divided by 255.0, with no other arithmetic of its own in between (the library's arithmetic is trusted, the numbers handed to it are decided)")
+	c.Expect("C16-R7", 1)
 	p := c.P("linux")
 	if p == nil || p.Tcell == nil {
 		c.Undecided("C16-R1", "package tcell", "-", "not loaded")
@@ -159,6 +161,7 @@ func checkC16(c *Ctx) {
 	c16Gates(c, p)
 	c16Bits(c, p)
 	c16Text(c, p)
+	checkDistanceDelegated(c, p, "C16-R7")
 }
 
 func c16FindColor(c *Ctx, p *Prog) {
